@@ -160,6 +160,17 @@ pub fn generate(seed: u64, tier: &str, sink: &mut Sink) {
         head.extend_from_slice(b"\r\n");
         let mut wire = head.clone();
         wire.extend_from_slice(&body);
+        // what follows the frame on the connection is not body: where the framing marks the end (chunked,
+        // Content-Length), one case in three is followed by more bytes — for a truncated stream by the very bytes
+        // that were cut off, so a decoder that is handed anything beyond the frame would find its stream complete
+        // (seed C03-seed9); the verdict must be that of the frame alone
+        if framing != 2 && rng.chance(1, 3) {
+            if damage == "truncated" {
+                wire.extend_from_slice(&encoded[wire_body.len()..]);
+            } else {
+                wire.extend_from_slice(b"HTTP/1.1 200 OK\r\nContent-Length: 9\r\n\r\nsmuggled!");
+            }
+        }
         let (mut segs, segname) = segment(&mut rng, &wire, &interesting_offsets(&wire, head.len()));
         // a transient transport error (a read timeout, a reset that the caller retries) right behind the head or
         // somewhere in the body of an undamaged response; the caller goes on reading: whatever is handed out
